@@ -45,7 +45,7 @@ def build(scratch, package, log):
     return exe
 
 
-def run_obligation(scratch, exe, test, tier, jobs, timeout_s, log, replay=None, max_cases=None):
+def run_obligation(scratch, exe, test, tier, jobs, timeout_s, log, replay=None, max_cases=None, progress=False):
     """Run one #[test] obligation of the native enumerator. Returns the parsed summary dict, with
     'crashed'/'timed_out' flags when the process did not finish normally."""
     short = test.split("::")[-1]
@@ -54,7 +54,9 @@ def run_obligation(scratch, exe, test, tier, jobs, timeout_s, log, replay=None, 
     for p in [out_file]:
         if os.path.exists(p):
             os.remove(p)
-    extra = {"VERIF_OUT": out_file, "VERIF_TIER": tier, "VERIF_JOBS": str(jobs), "VERIF_PROGRESS": prog}
+    extra = {"VERIF_OUT": out_file, "VERIF_TIER": tier, "VERIF_JOBS": str(jobs)}
+    if progress:
+        extra["VERIF_PROGRESS"] = prog
     if replay is not None:
         extra["VERIF_REPLAY"] = ",".join(str(x) for x in replay)
     if max_cases:
